@@ -3,12 +3,14 @@ package props
 import (
 	"errors"
 	"fmt"
+	"path/filepath"
 	"runtime/debug"
 	"sort"
 	"strings"
 	"time"
 
 	"github.com/ozanh/ugo"
+	"github.com/ozanh/ugo/importers"
 	ugofmt "github.com/ozanh/ugo/stdlib/fmt"
 	ugojson "github.com/ozanh/ugo/stdlib/json"
 	ugostrings "github.com/ozanh/ugo/stdlib/strings"
@@ -96,6 +98,24 @@ func stdlibModule(name string) ugo.Importable {
 		}}
 	}
 	return nil
+}
+
+// memFileImporter is the repository's importers.FileImporter over an in-memory flat directory: files are found by their
+// base name, whatever (relative or absolute) directory the importer derives for them.
+func memFileImporter(files map[string]string, workDir string, reads *int) *importers.FileImporter {
+	return &importers.FileImporter{WorkDir: workDir, FileReader: func(path string) ([]byte, error) {
+		if reads != nil {
+			*reads++
+			if *reads > 10000 {
+				return nil, fmt.Errorf("runaway import chain: more than 10000 file reads")
+			}
+		}
+		src, ok := files[filepath.Base(path)]
+		if !ok {
+			return nil, fmt.Errorf("no such file %s", filepath.Base(path))
+		}
+		return []byte(src), nil
+	}}
 }
 
 // compileProgram compiles p with the given optimizer setting (limit<0: NoOptimize).
